@@ -457,10 +457,13 @@ def new_ltf_plan(**args):
         
         # The bmin constraint must always be respected
         if fbin < bmin:
-            fres = fi / bmin
-            dftlen = int(fs/fres) # Recalculate L if bmin was enforced
-            fbin = bmin
+            # Recalculate L if bmin was enforced, then re-derive everything from it
+            dftlen = min(N, int(np.round(fs / (fi / bmin))))
             nseg = int(np.round((N - dftlen) / (xov * dftlen) + 1))
+            if nseg == 1:
+                dftlen = N
+            fres = fs / dftlen
+            fbin = fi / fres
 
 
         # --- C. Store results and update state for the next iteration ---
